@@ -392,7 +392,7 @@ func (m *cacheModel) checkSyncItem(fn *ssa.Function, loop *Loop) {
 	if !loop.Header.Instrs[0].Pos().IsValid() {
 		pos = c.P.fnPos(fn)
 	}
-	w := &Walker{P: c.P, Inline: autoInline(c.P, fn, 16)}
+	w := &Walker{P: c.P, Inline: autoInline(c.P, fn, 16), PhiNames: phiRoles(loop.Header, map[string]func(*ssa.Phi) bool{"events": phiTypeIs("[]Event")})}
 	paths := w.LoopRegion(fn, loop)
 	if w.Truncated {
 		c.undecided(rule, "doSync/too-many-paths", pos, "path limit exceeded")
